@@ -6,6 +6,13 @@ from contracts import utils as U
 def units(tier):
     us = [Unit(IP.ModifiedInPlace, {'case': k}) for k in sorted(IP.CASES)]
     us += [Unit(IP.ModifiedInPlace, {'case': k, 'again': True}) for k in ('plain:B:max', 'joliet:victim', 'all:victim', 'boundary:first-of-sector-2')]
+    # random images (final trees of the random edit histories of contracts/fidelity.py), victim and new length chosen by the seed
+    import os
+    base = int(os.environ.get('VERIF_SEED', '0') or 0) * 1000 if tier != 'quick' else 0
+    flavours = ('plain', 'joliet', 'rr109', 'rr112-joliet-xa') if tier == 'quick' else ('plain', 'level3', 'joliet', 'rr109', 'rr112', 'rr110-joliet', 'rr112-joliet-xa')
+    for fl in flavours:
+        for k in range(1, 2 if tier == 'quick' else 11):
+            us.append(Unit(IP.ModifiedInPlace, {'case': 'random:%s:%d' % (fl, base + k)}))
     us += [Unit(IP.InPlaceRefused, {'case': k}) for k in sorted(IP.REFUSED)]
     us += [Unit(U.CeilingDiv)]
     return us
@@ -23,7 +30,7 @@ META = {
         'a boot image carrying a boot info table: the in-place writer copies the new content without re-patching the table (not part of the C17 statement; see C11)',
         'the El Torito load size (sectors to load) of a boot image is left as it was by the repair of K17',
     ],
-    'bounded': ['6 images, 23 modification cases, 7 refusals'],
+    'bounded': ['6 images, 23 modification cases, 7 refusals', 'random images: 4 (quick) / 70 (thorough)'],
 }
 
 MANIFEST = {
